@@ -1,9 +1,11 @@
 (* drv_c07.ml — case: "kind\tkeys\tprefill\tcap\tscript\tflush\tcalls" (see harness/src/c07.rs).
    S: what the specification says about this run, computed from the model: "equal" iff the scripted
-      run leaves prefill ++ (bytes of the all-accepting in-memory run), every call is Ok and every
-      bytes_written() equals the bytes accepted so far.
+      run leaves prefill ++ (bytes of the all-accepting in-memory run), every call is Ok, the sink was
+      flushed and accepted nothing after its last successful flush (WriterProofs.sink_committed), and
+      every bytes_written() equals the bytes accepted so far.
    M: per-call status:bytes_written, into_inner status, sink length, write calls consumed,
-      successful flushes, digest of the non-checksum bytes. *)
+      successful flushes, digest of the non-checksum bytes, bytes accepted after the last successful
+      flush (s_unflushed of the final sink). *)
 let kind_of_string (s : string) : ioerr =
   match s with
   | "other" -> IoOther
@@ -49,19 +51,21 @@ let fnv (l : n list) (upto : int) : int =
   let h = ref 0x811c9dc5 in
   List.iteri (fun i b -> if i < upto then h := ((!h lxor (int_of_n b)) * 16777619) land 0xffffffff) l;
   !h
-type run = { rcalls : callres list; rfin : callres option; data : n list; wcalls : int; flushes : int; buffered : n list }
+(* unfl: bytes the sink accepted after its last successful flush, read (like data, wcalls and flushes)
+   AFTER a BufWriter has been dropped - as the harness reads ScriptSink.unflushed *)
+type run = { rcalls : callres list; rfin : callres option; data : n list; wcalls : int; flushes : int; buffered : n list; unfl : int }
 let run_case (cap : string) script fl prefill calls fin : run =
   if cap = "-" then
     let o = x_sink_session script fl prefill calls fin in
     { rcalls = o.o_calls; rfin = o.o_fin; data = o.o_final.s_data; wcalls = int_of_nat o.o_final.s_calls;
-      flushes = int_of_nat o.o_final.s_flushes; buffered = [] }
+      flushes = int_of_nat o.o_final.s_flushes; buffered = []; unfl = int_of_nat o.o_final.s_unflushed }
   else
     let o = x_buf_session (nat_of_int (int_of_string cap)) script fl prefill calls fin in
     (* the harness (or the builder, on an error path) finally drops the BufWriter *)
     let b = x_buf_drop o.o_final in
     let s = b.b_inner in
     { rcalls = o.o_calls; rfin = o.o_fin; data = s.s_data; wcalls = int_of_nat s.s_calls;
-      flushes = int_of_nat s.s_flushes; buffered = o.o_final.b_buf }
+      flushes = int_of_nat s.s_flushes; buffered = o.o_final.b_buf; unfl = int_of_nat s.s_unflushed }
 (* per call "status:bytes_written"; bytes_written() cannot be observed when the constructor failed *)
 let calls_string (r : run) : string =
   String.concat "," (List.mapi (fun i (((st, bw), _), _) ->
@@ -71,8 +75,8 @@ let fin_string (r : run) : string =
 let total_bytes calls fin : int =
   List.fold_left (fun a c -> List.fold_left (fun a ch -> a + List.length ch) a c) 0 (fin :: calls)
 let m_common (r : run) npre total : string =
-  Printf.sprintf "%s|%s|len=%d|calls=%d|fl=%d|dig=%08x" (calls_string r) (fin_string r)
-    (List.length r.data) r.wcalls r.flushes (fnv r.data (npre + total))
+  Printf.sprintf "%s|%s|len=%d|calls=%d|fl=%d|dig=%08x|unfl=%d" (calls_string r) (fin_string r)
+    (List.length r.data) r.wcalls r.flushes (fnv r.data (npre + total)) r.unfl
 let handle (line : string) : string =
   match split_on '\t' line with
   | [_kind; _keys; prefill; cap; script; flush; calls] ->
@@ -86,8 +90,13 @@ let handle (line : string) : string =
       if not (List.for_all (fun (((st, _), _), _) -> is_ok st) r.rcalls) then "differs:call-failed"
       else if (match r.rfin with Some (((st, _), _), _) -> not (is_ok st) | None -> true) then "differs:finish-failed"
       else if r.data <> prefill @ m.o_final.s_data then "differs:bytes"
-      else if r.buffered <> [] then "differs:left-in-buffer"
       else if r.flushes < 1 then "differs:not-flushed"
+      (* same place and same condition as in harness/src/c07.rs: the sink (after a BufWriter, if any,
+         was dropped) accepted bytes after its last successful flush. Bytes that into_inner left in a
+         BufWriter's buffer reach the sink only when the BufWriter is dropped, i.e. after the last
+         flush, so they are counted here as well (the harness cannot see the buffer any more) *)
+      else if r.unfl > 0 then "differs:written-after-the-last-flush"
+      else if r.buffered <> [] then "differs:left-in-buffer"
       else if not (List.for_all (fun (((_, bw), _), wa) -> int_of_n bw = int_of_nat wa - npre) r.rcalls) then "differs:bytes_written"
       else "equal" in
     "S:" ^ s ^ "\tM:" ^ m_common r npre total
